@@ -121,8 +121,8 @@ Fixpoint ssel_eqb (a b : ssel) {struct a} : bool :=
                                      | [], [] => true
                                      | x :: r, y :: r' => ssel_eqb x y && all r r'
                                      | _, _ => false end) sub sub'
-  | SanFrag c o sub, SanFrag c' o' sub' =>
-      (c =? c') && (o =? o') &&
+  | SanFrag c o d sub, SanFrag c' o' d' sub' =>
+      (c =? c') && (o =? o') && Nat.eqb d d' &&
       (fix all (l l' : list ssel) := match l, l' with
                                      | [], [] => true
                                      | x :: r, y :: r' => ssel_eqb x y && all r r'
